@@ -210,10 +210,22 @@ def observe(case, model, objs) -> dict:
     return ob
 
 
+_BUFFERS: dict = {}
+_USED = [0]
+
+
 def make_arg(a, objs):
     """-> (python argument, skip?)"""
     if "list" in a:
-        return [float(w) for w in a["list"]], False
+        ws = [float(w) for w in a["list"]]
+        if ws and int(sum(ws) * 16) % 2 == 0:
+            # the caller's weights in ONE preallocated float64 buffer per length, refilled for every use and overwritten
+            # after every operation (R5-C18): the stored pmf must not alias the caller's array
+            _USED[0] += 1          # (a fresh slot for every argument of ONE call: the caller does not alias its own arguments)
+            buf = _BUFFERS.setdefault((len(ws), _USED[0]), np.zeros(len(ws), dtype=float))
+            buf[:] = ws
+            return buf, False
+        return ws, False
     if "fam" in a:
         return impl.FAMILIES[a["fam"]], False
     k = a["obj"]
@@ -302,9 +314,13 @@ def run_impl(case) -> list:
     steps = []
     prev = None
     prev_held = []
+    _BUFFERS.clear()
     for o in case["ops"]:
         k = o[0]
         out = None
+        _USED[0] = 0
+        for _b in _BUFFERS.values():
+            _b[:] = 7.0          # the caller goes on using its buffers
         try:
             if k == "new":
                 arg, skip = make_arg(o[1], objs)
